@@ -10,6 +10,8 @@ NOTE = ("Trusted: numpy's generic machinery behaves on object arrays as on float
         "Python bodies (witness concordance replays solver witnesses on the JIT code); contract stubs / UF lemma "
         "instances named in the evidence are true of the real routines; z3/cvc5. Float rounding is outside the claim.")
 CLAIMED = {
+    'C14': ('4/C14', 'symbolic execution of the pickle/HDF5/Exo-Transmit cross-section loaders and pickle/HDF5 k-table loaders on one symbolic table (I/O stubbed to arbitrary tables), plus solver-chosen operation histories over the real OpacityCache + z3'),
+    'C16': ('4/C16', 'symbolic execution of Binner/FluxBinner/SimpleBinner/NativeBinner.generate_spectrum_output on a symbolic model output + z3 (self-consistency clause only)'),
     'C13': ('4/C13', 'symbolic execution of two path_integral runs (full vs restricted grid), Opacity.opacity/KTable.opacity selection and clip_native_to_wngrid+FluxBinner on symbolic grids + z3/nlsat'),
     'C09': ('4/C09', 'symbolic execution of quantile_corner, NestleOptimizer.store_nestle_output/get_solution and Optimizer.generate_solution/compute_derived_trace on symbolic samples and weights + z3/nlsat'),
     'C07': ('4/C07', 'symbolic operation histories (operation/target selectors as solver integers, all numeric arguments symbolic) over the real Optimizer API, oracle from current settings only + z3'),
